@@ -744,6 +744,58 @@ let () =
                                     match Model.own_snap ps.snap o, Model.own_tokens o with
                                     | Some s2, Some t2 -> Some (s2, int_of_nat t2)
                                     | _ -> None in
+                          (* C14o: ownership replay for the zero-suppressed and the complement-edge rule sets (coq/Mgr/OomOwnZ.v,
+                             OomOwnC.v; theorem families C14_ownz, C14_ownc): after a FAILING operation of a one-thread case the predicted
+                             table incl. reference counts and garbage must be the real snapshot up to renaming, and thread 0 must
+                             own exactly as many edges as the harness holds inner handles *)
+                          let own =
+                            if own <> None || (kname <> "zbdd" && kname <> "bcdd") || code <> 1 || threads > 1 || is_z then own
+                            else
+                              let o =
+                                match kname, toks with
+                                | "zbdd", [ op; _; a; b ] when zop_of op <> None ->
+                                  (match href a, href b, zop_of op with
+                                   | Some f, Some g, Some o -> Some (Model.ownz_set ncap ps.snap o f g)
+                                   | _ -> None)
+                                | "zbdd", [ ("NOT" | "NOTO"); _; a ] ->
+                                  (match href a with Some f -> Some (Model.ownz_not ncap ps.snap f) | None -> None)
+                                | "zbdd", [ op; _; a; b ] when bop_of op <> None ->
+                                  (match href a, href b, bop_of op with
+                                   | Some f, Some g, Some o -> Some (Model.ownz_op ncap ps.snap o f g)
+                                   | _ -> None)
+                                | "zbdd", [ "ITE"; _; a; b; cc ] ->
+                                  (match href a, href b, href cc with
+                                   | Some f, Some g, Some h -> Some (Model.ownz_ite ncap ps.snap f g h)
+                                   | _ -> None)
+                                | "bcdd", [ op; _; a; b ] when bop_of op <> None ->
+                                  (match hedge a, hedge b, bop_of op with
+                                   | Some f, Some g, Some o -> Some (Model.ownc_op ncap ps.snap o f g)
+                                   | _ -> None)
+                                | "bcdd", [ "ITE"; _; a; b; cc ] ->
+                                  (match hedge a, hedge b, hedge cc with
+                                   | Some f, Some g, Some h -> Some (Model.ownc_ite ncap ps.snap f g h)
+                                   | _ -> None)
+                                | _ -> None in
+                              match o with
+                              | None -> None
+                              | Some o ->
+                                stat ("chk_own_inv_" ^ kname) 1;
+                                let inv = if kname = "zbdd" then Model.ownz_inv_b ps.snap else Model.ownc_inv_b ps.snap in
+                                if not inv then (
+                                  fail i "prop" (Printf.sprintf "own%s_inv_b false on the snapshot before the operation (reference counts not exact: hypothesis CInv of the C14_own%s theorems)"
+                                                   (if kname = "zbdd" then "z" else "c") (if kname = "zbdd" then "z" else "c"));
+                                  None)
+                                else if int_of_nat (Model.eres_code o) <> code then (
+                                  fail i "corr"
+                                    (Printf.sprintf "%s at capacity %d: the bounded model has outcome %d, the ownership model (%s) has outcome %d"
+                                       ops cap code kname (int_of_nat (Model.eres_code o)));
+                                  None)
+                                else (
+                                  stat ("own_predictions_" ^ kname) 1;
+                                  if cnt > ps.listed then stat ("own_predictions_garbage_" ^ kname) 1;
+                                  match Model.owne_snap (if kname = "zbdd" then Model.KZbdd else Model.KBcdd) ps.snap o, Model.owne_tokens o with
+                                  | Some s2, Some t2 -> Some (s2, int_of_nat t2)
+                                  | _ -> None) in
                           pending := Some { pcode = code; pcount = cnt; pfull = max cap ps.listed; ptable = tab; pwhat = ops;
                                             pdst = dst; pstep = i; pown = own; pterms = tcnt;
                                             pexact = (kname = "mtbdd" || kname = "tdd") })))
